@@ -12,10 +12,16 @@ What one glob pattern matches is an oracle (`Pat.ms`); the COMBINATION is `globs
 * `C05_force`, `C05_missing_generates`, `C05_status_fails` — each forces a run.
 * `C05_detect_checksum` — edit / add / remove / rename-in-place of a matched file changes
   the byte stream, hence (`HashInj`) the fingerprint, hence the task reruns (`C05_detect_rerun`).
+* `C05_detect_move` (F8) — the name hashed with a source is its path relative to the task
+  directory (`nameOf`), distinct for distinct matched paths (`NamesInj`): a matched file replaced
+  by ANOTHER PATH with the same content — a move to another directory, a rename — changes the
+  stream; `C05_dir_move_detected` is the former witness of defect 8, now rebuilt.
+  `C05_counterexample_basename_historical`: what the same history did when the name was
+  `filepath.Base` (a non-injective name table) — kept as a record, NOT true of the tree any more.
 * `C05_mtime` — checksum does not look at mtimes; timestamp does.
-* `C05_counterexample` (defect 8) — moving a file to another directory (same base name, same
-  content, both matched) is NOT detected; `C05_counterexample_undelimited`: a rename plus an
-  edit can collide because name and content are hashed without a delimiter;
+* `C05_detect_full` is still false: `C05_counterexample_undelimited` — a rename plus an edit can
+  collide because name and content are hashed without a delimiter (also with injective names:
+  `C05_detect_full_inj_false`);
   `C05_missing_generates_timestamp_counterexample` — method timestamp does not notice a
   deleted `generates` file once its marker exists (new finding).
   `C05_detect_partial` is the detection theorem for the single-change classes that do hold.
@@ -208,8 +214,8 @@ def HashInj (H : Bytes → Bytes) (a b : Bytes) : Prop := H a = H b → a = b
 theorem C05_detect_rerun {i : Nat} {t : Task} (ht : pr.tasks[i]? = some t) (hm : t.method = .checksum)
     (hsrc : t.sources.isEmpty = false) (e : Env) (s : State) (old : Bytes)
     (hstored : aget s.sums (sumKey t) = some (H old))
-    (hne : stream pr s.files (srcsNow t s.files) ≠ old)
-    (hinj : HashInj H (stream pr s.files (srcsNow t s.files)) old) :
+    (hne : stream (nameOf pr t) s.files (srcsNow t s.files) ≠ old)
+    (hinj : HashInj H (stream (nameOf pr t) s.files (srcsNow t s.files)) old) :
     (invoke cfg H pr i .run e s).2.skipped = false ∧
     (Calm t e → (invoke cfg H pr i .run e s).2.ran = List.range' 0 t.cmds.length) := by
   apply run_not_upToDate cfg H pr ht
@@ -223,7 +229,7 @@ end
 /-- **Edit**: changing the content of one matched file changes the stream. -/
 theorem C05_detect_edit (pr : Proj) (t : Task) (fs : FS) (p : Path) (f : File)
     (hp : p ∈ srcsNow t fs) (hne : f.content ≠ contentOf fs p) :
-    stream pr (aset fs p f) (srcsNow t (aset fs p f)) ≠ stream pr fs (srcsNow t fs) := by
+    stream (nameOf pr t) (aset fs p f) (srcsNow t (aset fs p f)) ≠ stream (nameOf pr t) fs (srcsNow t fs) := by
   have hex : ahas fs p = true := ((mem_srcsNow t fs p).mp hp).1
   have hsame : srcsNow t (aset fs p f) = srcsNow t fs := by
     apply strictSorted_ext _ _ (strictSorted_srcsNow t _) (strictSorted_srcsNow t _)
@@ -233,115 +239,239 @@ theorem C05_detect_edit (pr : Proj) (t : Task) (fs : FS) (p : Path) (f : File)
     · subst hq; simp [hex]
     · simp [hq]
   rw [hsame]
-  apply stream_edit pr fs (aset fs p f) _ p (strictSorted_srcsNow t fs).nodup hp
+  apply stream_edit (nameOf pr t) fs (aset fs p f) _ p (strictSorted_srcsNow t fs).nodup hp
   · unfold contentOf; rw [aget_aset_self]; exact hne
   · intro q hq
     exact contentOf_aset_ne fs p q f (fun e => hq e.symm)
 
 /-- **Add**: a new file matched by the sources changes the stream (its base name is not empty). -/
 theorem C05_detect_add (pr : Proj) (t : Task) (fs : FS) (q : Path) (f : File)
-    (hnew : ahas fs q = false) (hm : lastFlag t.sources q = some true) (hb : baseOf pr q ≠ []) :
-    stream pr (aset fs q f) (srcsNow t (aset fs q f)) ≠ stream pr fs (srcsNow t fs) := by
+    (hnew : ahas fs q = false) (hm : lastFlag t.sources q = some true) (hb : nameOf pr t q ≠ []) :
+    stream (nameOf pr t) (aset fs q f) (srcsNow t (aset fs q f)) ≠ stream (nameOf pr t) fs (srcsNow t fs) := by
   rw [srcsNow_add t fs q f hnew hm]
   intro heq
   have hl := congrArg List.length heq
   rw [stream_length_insertSorted] at hl
   have hq : q ∉ srcsNow t fs := by rw [mem_srcsNow]; simp [hnew]
-  have hc : stream pr (aset fs q f) (srcsNow t fs) = stream pr fs (srcsNow t fs) :=
-    stream_congr pr fs _ _ (fun p hp => contentOf_aset_ne fs q p f (fun e => hq (e ▸ hp)))
+  have hc : stream (nameOf pr t) (aset fs q f) (srcsNow t fs) = stream (nameOf pr t) fs (srcsNow t fs) :=
+    stream_congr (nameOf pr t) fs _ _ (fun p hp => contentOf_aset_ne fs q p f (fun e => hq (e ▸ hp)))
   rw [hc] at hl
-  have : (baseOf pr q).length ≠ 0 := fun h => hb (List.eq_nil_of_length_eq_zero h)
+  have : (nameOf pr t q).length ≠ 0 := fun h => hb (List.eq_nil_of_length_eq_zero h)
   omega
 
 /-- **Remove**: deleting a matched file changes the stream. -/
 theorem C05_detect_remove (pr : Proj) (t : Task) (fs : FS) (q : Path)
-    (hq : q ∈ srcsNow t fs) (hb : baseOf pr q ≠ []) :
-    stream pr (adel fs q) (srcsNow t (adel fs q)) ≠ stream pr fs (srcsNow t fs) := by
+    (hq : q ∈ srcsNow t fs) (hb : nameOf pr t q ≠ []) :
+    stream (nameOf pr t) (adel fs q) (srcsNow t (adel fs q)) ≠ stream (nameOf pr t) fs (srcsNow t fs) := by
   rw [srcsNow_remove t fs q hq]
   intro heq
   have hl := congrArg List.length heq
   rw [stream_length_insertSorted] at hl
   have hq' : q ∉ srcsNow t (adel fs q) := by rw [mem_srcsNow, ahas_adel]; simp
-  have hc : stream pr (adel fs q) (srcsNow t (adel fs q)) = stream pr fs (srcsNow t (adel fs q)) :=
-    stream_congr pr fs _ _ (fun p hp => contentOf_adel_ne fs q p (fun e => hq' (e ▸ hp)))
+  have hc : stream (nameOf pr t) (adel fs q) (srcsNow t (adel fs q)) = stream (nameOf pr t) fs (srcsNow t (adel fs q)) :=
+    stream_congr (nameOf pr t) fs _ _ (fun p hp => contentOf_adel_ne fs q p (fun e => hq' (e ▸ hp)))
   rw [hc] at hl
-  have : (baseOf pr q).length ≠ 0 := fun h => hb (List.eq_nil_of_length_eq_zero h)
+  have : (nameOf pr t q).length ≠ 0 := fun h => hb (List.eq_nil_of_length_eq_zero h)
   omega
 
 /-- **Rename in place**: a file replaced, at the same position of the sorted source list, by one
-with the same content and another base name changes the stream. -/
-theorem C05_detect_rename_in_place (pr : Proj) (fs fs' : FS) (l₁ l₂ : List Path) (p q : Path)
+with the same content and another name changes the stream. -/
+theorem C05_detect_rename_in_place (pr : Proj) (t : Task) (fs fs' : FS) (l₁ l₂ : List Path) (p q : Path)
     (h1 : ∀ x ∈ l₁, contentOf fs' x = contentOf fs x) (h2 : ∀ x ∈ l₂, contentOf fs' x = contentOf fs x)
-    (hc : contentOf fs' q = contentOf fs p) (hb : baseOf pr q ≠ baseOf pr p) :
-    stream pr fs' (l₁ ++ q :: l₂) ≠ stream pr fs (l₁ ++ p :: l₂) :=
-  stream_replace pr fs fs' l₁ l₂ p q h1 h2 hc hb
+    (hc : contentOf fs' q = contentOf fs p) (hb : nameOf pr t q ≠ nameOf pr t p) :
+    stream (nameOf pr t) fs' (l₁ ++ q :: l₂) ≠ stream (nameOf pr t) fs (l₁ ++ p :: l₂) :=
+  stream_replace (nameOf pr t) fs fs' l₁ l₂ p q h1 h2 hc hb
 
 /-- **C05_detect_checksum**: edit, addition and removal of a matched file each change the byte
 stream fed to the hash. -/
 theorem C05_detect_checksum (pr : Proj) (t : Task) (fs : FS) :
     (∀ p f, p ∈ srcsNow t fs → f.content ≠ contentOf fs p →
-      stream pr (aset fs p f) (srcsNow t (aset fs p f)) ≠ stream pr fs (srcsNow t fs)) ∧
-    (∀ q f, ahas fs q = false → lastFlag t.sources q = some true → baseOf pr q ≠ [] →
-      stream pr (aset fs q f) (srcsNow t (aset fs q f)) ≠ stream pr fs (srcsNow t fs)) ∧
-    (∀ q, q ∈ srcsNow t fs → baseOf pr q ≠ [] →
-      stream pr (adel fs q) (srcsNow t (adel fs q)) ≠ stream pr fs (srcsNow t fs)) :=
+      stream (nameOf pr t) (aset fs p f) (srcsNow t (aset fs p f)) ≠ stream (nameOf pr t) fs (srcsNow t fs)) ∧
+    (∀ q f, ahas fs q = false → lastFlag t.sources q = some true → nameOf pr t q ≠ [] →
+      stream (nameOf pr t) (aset fs q f) (srcsNow t (aset fs q f)) ≠ stream (nameOf pr t) fs (srcsNow t fs)) ∧
+    (∀ q, q ∈ srcsNow t fs → nameOf pr t q ≠ [] →
+      stream (nameOf pr t) (adel fs q) (srcsNow t (adel fs q)) ≠ stream (nameOf pr t) fs (srcsNow t fs)) :=
   ⟨fun p f => C05_detect_edit pr t fs p f, fun q f => C05_detect_add pr t fs q f,
    fun q => C05_detect_remove pr t fs q⟩
 
-/-! ## Full detection is false: directory moves, undelimited stream -/
+/-! ## Moves and renames (F8: the name is the path relative to the task directory) -/
+
+/-- distinct matched paths carry distinct names.  This is what hashing the path relative to the
+task directory gives (all matched paths lie below that directory, so `nameOf` only removes a
+common prefix of distinct strings); it is what hashing `filepath.Base` did NOT give. -/
+def NamesInj (pr : Proj) (t : Task) : Prop :=
+  ∀ p q, lastFlag t.sources p = some true → lastFlag t.sources q = some true → p ≠ q →
+    nameOf pr t p ≠ nameOf pr t q
+
+/-- **Move / rename detected**: a matched file replaced by a file at ANOTHER matched path with the
+same content (the rest of the sorted source list and its contents unchanged) changes the stream
+(hence the fingerprint under `HashInj`, hence the task reruns: `C05_detect_rerun`). -/
+theorem C05_detect_move (pr : Proj) (t : Task) (fs fs' : FS) (l₁ l₂ : List Path) (p q : Path)
+    (hinj : NamesInj pr t) (hpq : p ≠ q)
+    (hs : srcsNow t fs = l₁ ++ p :: l₂) (hs' : srcsNow t fs' = l₁ ++ q :: l₂)
+    (h1 : ∀ x ∈ l₁, contentOf fs' x = contentOf fs x) (h2 : ∀ x ∈ l₂, contentOf fs' x = contentOf fs x)
+    (hc : contentOf fs' q = contentOf fs p) :
+    stream (nameOf pr t) fs' (srcsNow t fs') ≠ stream (nameOf pr t) fs (srcsNow t fs) := by
+  have hp : lastFlag t.sources p = some true := ((mem_srcsNow t fs p).mp (by rw [hs]; simp)).2
+  have hq : lastFlag t.sources q = some true := ((mem_srcsNow t fs' q).mp (by rw [hs']; simp)).2
+  rw [hs, hs']
+  exact stream_replace (nameOf pr t) fs fs' l₁ l₂ p q h1 h2 hc (hinj q p hq hp (fun e => hpq e.symm))
+
+private theorem not_mem_of_nodup_split {l₁ l₂ : List Path} {p : Path} (h : (l₁ ++ p :: l₂).Nodup) :
+    p ∉ l₁ ∧ p ∉ l₂ := by
+  induction l₁ with
+  | nil => simp only [List.nil_append, List.nodup_cons] at h; exact ⟨by simp, h.1⟩
+  | cons a l ih =>
+    simp only [List.cons_append, List.nodup_cons, List.mem_append, List.mem_cons] at h
+    have := ih h.2
+    refine ⟨?_, this.2⟩
+    simp only [List.mem_cons]
+    intro hc
+    rcases hc with hc | hc
+    · exact h.1 (Or.inr (Or.inl hc.symm))
+    · exact this.1 hc
+
+/-- … for the file operation itself: `mv p q` (content and mtime kept) of a matched file to another
+matched path that takes the same place in the sorted list.  (The place matters only because
+names and contents are hashed back to back: see `C05_counterexample_undelimited`.) -/
+theorem C05_detect_move_op (pr : Proj) (t : Task) (s : State) (l₁ l₂ : List Path) (p q : Path)
+    (hinj : NamesInj pr t) (hpq : p ≠ q)
+    (hs : srcsNow t s.files = l₁ ++ p :: l₂) (hs' : srcsNow t (applyOp pr (.move p q) s).files = l₁ ++ q :: l₂) :
+    stream (nameOf pr t) (applyOp pr (.move p q) s).files (srcsNow t (applyOp pr (.move p q) s).files) ≠
+      stream (nameOf pr t) s.files (srcsNow t s.files) := by
+  have hnp := not_mem_of_nodup_split (hs ▸ (strictSorted_srcsNow t s.files).nodup)
+  have hnq := not_mem_of_nodup_split (hs' ▸ (strictSorted_srcsNow t (applyOp pr (.move p q) s).files).nodup)
+  have hex : ahas s.files p = true := ((mem_srcsNow t s.files p).mp (by rw [hs]; simp)).1
+  cases hf : aget s.files p with
+  | none => simp [ahas, hf] at hex
+  | some f =>
+    have hfiles : (applyOp pr (.move p q) s).files = aset (adel s.files p) q f := by simp [applyOp, hf]
+    rw [hfiles] at hs' ⊢
+    have hoth : ∀ x, x ≠ p → x ≠ q → contentOf (aset (adel s.files p) q f) x = contentOf s.files x := by
+      intro x hxp hxq
+      rw [contentOf_aset_ne _ q x f (fun e => hxq e.symm), contentOf_adel_ne _ p x (fun e => hxp e.symm)]
+    apply C05_detect_move pr t s.files _ l₁ l₂ p q hinj hpq hs hs'
+    · intro x hx; exact hoth x (fun e => hnp.1 (e ▸ hx)) (fun e => hnq.1 (e ▸ hx))
+    · intro x hx; exact hoth x (fun e => hnp.2 (e ▸ hx)) (fun e => hnq.2 (e ▸ hx))
+    · unfold contentOf; rw [aget_aset_self, hf]
+
+/- witness: paths 0 = `d/a.e`, 1 = `e/a.e` (same base name `a.e`), sources `**/*.e` -/
+private def tMv : Task :=
+  { name := [120], label := [], method := .checksum, sources := [⟨false, [0, 1]⟩], generates := [],
+    status := [], prompt := false, dir := none, cmds := [⟨[]⟩] }
+private def prMv : Proj :=
+  { base := [(0, [100, 47, 97, 46, 101]), (1, [101, 47, 97, 46, 101])], dirOf := [], dirLen := [], tasks := [tMv] }
+private def sMv : State := { State.empty with files := [(0, ⟨[7], 5⟩)] }
+private def env (n : Nat) : Env := ⟨n, true, none, none⟩
+
+/- the same two files below a task directory `sub/` (directory 0, prefix length 4): paths
+`sub/d/a.e`, `sub/e/a.e`, names `d/a.e`, `e/a.e` -/
+private def tSub : Task := { tMv with dir := some 0 }
+private def prSub : Proj :=
+  { base := [(0, [115, 117, 98, 47, 100, 47, 97, 46, 101]), (1, [115, 117, 98, 47, 101, 47, 97, 46, 101])],
+    dirOf := [(0, 0), (1, 0)], dirLen := [(0, 4)], tasks := [tSub] }
+
+private theorem matched_tMv {p : Path} (h : lastFlag tMv.sources p = some true) : p = 0 ∨ p = 1 := by
+  by_cases hm : p ∈ [0, 1]
+  · simpa using hm
+  · simp [tMv, lastFlag, hm] at h
+
+/-- non-vacuity of `NamesInj`: relative paths of distinct files differ (root task and task with a `dir:`) -/
+example : NamesInj prMv tMv ∧ NamesInj prSub tSub ∧ nameOf prSub tSub 0 = [100, 47, 97, 46, 101] := by
+  refine ⟨?_, ?_, by decide⟩
+  · intro p q hp hq hne
+    rcases matched_tMv hp with rfl | rfl <;> rcases matched_tMv hq with rfl | rfl <;>
+      first | exact absurd rfl hne | decide
+  · intro p q hp hq hne
+    rcases matched_tMv hp with rfl | rfl <;> rcases matched_tMv hq with rfl | rfl <;>
+      first | exact absurd rfl hne | decide
+
+/-- **the former witness of defect 8, now detected**: run, move the file to the other directory
+(same base name, same content, both matched), run again — the stream differs and the second run
+executes the command.  (An instance of `C05_detect_move_op` with `l₁ = l₂ = []`.) -/
+theorem C05_dir_move_detected :
+    let s1 := (invoke Cfg.fixed id prMv 0 .run (env 10) sMv).1
+    let s2 := applyOp prMv (.move 0 1) s1
+    (invoke Cfg.fixed id prMv 0 .run (env 10) sMv).2.ran = [0] ∧
+    srcsNow tMv s1.files = [0] ∧ srcsNow tMv s2.files = [1] ∧
+    stream (nameOf prMv tMv) s2.files (srcsNow tMv s2.files) ≠ stream (nameOf prMv tMv) s1.files (srcsNow tMv s1.files) ∧
+    (invoke Cfg.fixed id prMv 0 .run (env 20) s2).2.skipped = false ∧
+    (invoke Cfg.fixed id prMv 0 .run (env 20) s2).2.ran = [0] := by decide
+
+/- HISTORICAL name table: `filepath.Base` of the two paths — both `a.e` -/
+private def prBase : Proj := { prMv with base := [(0, [97, 46, 101]), (1, [97, 46, 101])] }
+
+/-- **Historical (defect 8, repaired by F8 — NOT a statement about the present tree)**: with a
+name table that is not injective on the matched paths, which is what hashing `filepath.Base`
+amounted to, the same history is not detected: the second run is skipped although a matched
+source was removed and another one added. -/
+theorem C05_counterexample_basename_historical :
+    ¬ NamesInj prBase tMv ∧
+    (let s1 := (invoke Cfg.fixed id prBase 0 .run (env 10) sMv).1
+     let s2 := applyOp prBase (.move 0 1) s1
+     (invoke Cfg.fixed id prBase 0 .run (env 10) sMv).2.ran = [0] ∧
+     srcsNow tMv s1.files = [0] ∧ srcsNow tMv s2.files = [1] ∧
+     stream (nameOf prBase tMv) s2.files (srcsNow tMv s2.files) = stream (nameOf prBase tMv) s1.files (srcsNow tMv s1.files) ∧
+     (invoke Cfg.fixed id prBase 0 .run (env 20) s2).2.skipped = true) := by
+  refine ⟨fun h => h 0 1 (by decide) (by decide) (by decide) (by decide), by decide⟩
+
+/-! ## Full detection is still false: the stream is not delimited -/
 
 /-- the full statement: whenever the set of (path, content) of the matched files differs, the
 stream differs -/
 def C05_detect_full : Prop :=
   ∀ (pr : Proj) (t : Task) (fs fs' : FS),
     (srcsNow t fs).map (fun p => (p, contentOf fs p)) ≠ (srcsNow t fs').map (fun p => (p, contentOf fs' p)) →
-    stream pr fs (srcsNow t fs) ≠ stream pr fs' (srcsNow t fs')
+    stream (nameOf pr t) fs (srcsNow t fs) ≠ stream (nameOf pr t) fs' (srcsNow t fs')
 
-/- witness: paths 0 = `d/a.e`, 1 = `e/a.e` (same base name `a.e`), sources `**/*.e` -/
-private def tMv : Task :=
-  { name := [120], label := [], method := .checksum, sources := [⟨false, [0, 1]⟩], generates := [],
-    status := [], prompt := false, dir := none, cmds := [⟨[]⟩] }
-private def prMv : Proj := { base := [(0, [97, 46, 101]), (1, [97, 46, 101])], dirOf := [], tasks := [tMv] }
-private def sMv : State := { State.empty with files := [(0, ⟨[7], 5⟩)] }
-private def env (n : Nat) : Env := ⟨n, true, none, none⟩
+/-- … and restricted to name tables that are injective on the matched paths (every real project
+since F8) -/
+def C05_detect_full_inj : Prop :=
+  ∀ (pr : Proj) (t : Task), NamesInj pr t → ∀ (fs fs' : FS),
+    (srcsNow t fs).map (fun p => (p, contentOf fs p)) ≠ (srcsNow t fs').map (fun p => (p, contentOf fs' p)) →
+    stream (nameOf pr t) fs (srcsNow t fs) ≠ stream (nameOf pr t) fs' (srcsNow t fs')
 
-/-- **Counterexample (defect 8)**: run, move the file to the other directory, run again — the
-second run is skipped although a matched source was removed and another one added. -/
-theorem C05_counterexample :
-    let s1 := (invoke Cfg.fixed id prMv 0 .run (env 10) sMv).1
-    let s2 := applyOp prMv (.move 0 1) s1
-    (invoke Cfg.fixed id prMv 0 .run (env 10) sMv).2.ran = [0] ∧
-    srcsNow tMv s1.files = [0] ∧ srcsNow tMv s2.files = [1] ∧
-    stream prMv s2.files (srcsNow tMv s2.files) = stream prMv s1.files (srcsNow tMv s1.files) ∧
-    (invoke Cfg.fixed id prMv 0 .run (env 20) s2).2.skipped = true := by decide
+/- names `ab`/`a`, contents `c`/`bc`: name and content are hashed back to back -/
+private def prUd : Proj := { base := [(0, [97, 98]), (1, [97])], dirOf := [], dirLen := [], tasks := [tMv] }
+
+/-- the un-delimited `name ++ content` stream lets a rename plus an edit collide (still true of
+the patched tree) -/
+theorem C05_counterexample_undelimited :
+    stream (nameOf prUd tMv) [(0, ⟨[99], 5⟩)] (srcsNow tMv [(0, ⟨[99], 5⟩)]) =
+    stream (nameOf prUd tMv) [(1, ⟨[98, 99], 5⟩)] (srcsNow tMv [(1, ⟨[98, 99], 5⟩)]) := by decide
 
 theorem C05_detect_full_false : ¬ C05_detect_full := by
   intro h
-  exact h prMv tMv [(0, ⟨[7], 5⟩)] [(1, ⟨[7], 5⟩)] (by decide) (by decide)
+  exact h prUd tMv [(0, ⟨[99], 5⟩)] [(1, ⟨[98, 99], 5⟩)] (by decide) C05_counterexample_undelimited
 
-/- base names `ab`/`a`, contents `c`/`bc`: name and content are hashed back to back -/
-private def prUd : Proj := { base := [(0, [97, 98]), (1, [97])], dirOf := [], tasks := [tMv] }
+theorem C05_detect_full_inj_false : ¬ C05_detect_full_inj := by
+  intro h
+  refine h prUd tMv ?_ [(0, ⟨[99], 5⟩)] [(1, ⟨[98, 99], 5⟩)] (by decide) C05_counterexample_undelimited
+  intro p q hp hq hne
+  rcases matched_tMv hp with rfl | rfl <;> rcases matched_tMv hq with rfl | rfl <;>
+    first | exact absurd rfl hne | decide
 
-/-- the un-delimited `base ++ content` stream lets a rename plus an edit collide -/
-theorem C05_counterexample_undelimited :
-    stream prUd [(0, ⟨[99], 5⟩)] (srcsNow tMv [(0, ⟨[99], 5⟩)]) =
-    stream prUd [(1, ⟨[98, 99], 5⟩)] (srcsNow tMv [(1, ⟨[98, 99], 5⟩)]) := by decide
-
-/-- **Partial**: single changes (edit of one file, one file added, one file removed) are detected;
-with `C05_detect_rerun` this gives a rerun under `HashInj`. -/
-theorem C05_detect_partial (pr : Proj) (t : Task) (fs : FS) (hbase : ∀ q, baseOf pr q ≠ []) :
+/-- **Partial**: single changes (edit of one file, one file added, one file removed) are detected
+when no matched path has an empty name; with `C05_detect_rerun` this gives a rerun under `HashInj`.
+Moves and renames: `C05_detect_move`. -/
+theorem C05_detect_partial (pr : Proj) (t : Task) (fs : FS)
+    (hbase : ∀ q, lastFlag t.sources q = some true → nameOf pr t q ≠ []) :
     (∀ p f, p ∈ srcsNow t fs → f.content ≠ contentOf fs p →
-      stream pr (aset fs p f) (srcsNow t (aset fs p f)) ≠ stream pr fs (srcsNow t fs)) ∧
+      stream (nameOf pr t) (aset fs p f) (srcsNow t (aset fs p f)) ≠ stream (nameOf pr t) fs (srcsNow t fs)) ∧
     (∀ q f, ahas fs q = false → lastFlag t.sources q = some true →
-      stream pr (aset fs q f) (srcsNow t (aset fs q f)) ≠ stream pr fs (srcsNow t fs)) ∧
+      stream (nameOf pr t) (aset fs q f) (srcsNow t (aset fs q f)) ≠ stream (nameOf pr t) fs (srcsNow t fs)) ∧
     (∀ q, q ∈ srcsNow t fs →
-      stream pr (adel fs q) (srcsNow t (adel fs q)) ≠ stream pr fs (srcsNow t fs)) :=
-  ⟨fun p f => C05_detect_edit pr t fs p f, fun q f h1 h2 => C05_detect_add pr t fs q f h1 h2 (hbase q),
-   fun q h => C05_detect_remove pr t fs q h (hbase q)⟩
+      stream (nameOf pr t) (adel fs q) (srcsNow t (adel fs q)) ≠ stream (nameOf pr t) fs (srcsNow t fs)) :=
+  ⟨fun p f => C05_detect_edit pr t fs p f, fun q f h1 h2 => C05_detect_add pr t fs q f h1 h2 (hbase q h2),
+   fun q h => C05_detect_remove pr t fs q h (hbase q ((mem_srcsNow t fs q).mp h).2)⟩
 
-/-- non-vacuity of the detection hypotheses: an edit, an add and a remove on a concrete tree -/
+/-- non-vacuity of the detection hypotheses: an edit, an add and a remove on a concrete tree, and
+every matched path has a non-empty name -/
 example : (0 : Path) ∈ srcsNow tMv sMv.files ∧ ahas sMv.files 1 = false ∧ lastFlag tMv.sources 1 = some true ∧
-    baseOf prMv 1 ≠ [] := by decide
+    nameOf prMv tMv 1 ≠ [] ∧ (∀ q, lastFlag tMv.sources q = some true → nameOf prMv tMv q ≠ []) := by
+  refine ⟨by decide, by decide, by decide, by decide, ?_⟩
+  intro q hq
+  rcases matched_tMv hq with rfl | rfl <;> decide
 
 /-! ## mtimes -/
 
@@ -380,7 +510,7 @@ theorem C05_mtime_checksum (H : Bytes → Bytes) (pr : Proj) (t : Task) (hm : t.
     unfold srcsNow nowPats; rw [ahas_retime]
   have hfp : fpNow H pr t (retime g s.files) = fpNow H pr t s.files := by
     unfold fpNow
-    rw [hsrc, stream_congr pr s.files _ _ (fun p _ => contentOf_retime g s.files p)]
+    rw [hsrc, stream_congr (nameOf pr t) s.files _ _ (fun p _ => contentOf_retime g s.files p)]
   have hgen : gensOk t (retime g s.files) = gensOk t s.files := by
     unfold gensOk; rw [ahas_retime]
   have hst : statusOk t (retime g s.files) = statusOk t s.files := by
